@@ -12,6 +12,8 @@ def binary(config, profile="release"):
     proj = os.path.join(tdir, "proj")
     os.makedirs(proj, exist_ok=True)
     shutil.copytree(src, proj, dirs_exist_ok=True)
+    ct = open(os.path.join(proj, "Cargo.toml")).read().replace('path = "/repo/curve25519-dalek"', 'path = "%s/curve25519-dalek"' % build.REPO)
+    open(os.path.join(proj, "Cargo.toml"), "w").write(ct)
     lock = os.path.join(build.REPO, "Cargo.lock")
     if os.path.exists(lock): shutil.copy(lock, os.path.join(proj, "Cargo.lock"))
     env = build.hook_env()
